@@ -54,7 +54,7 @@ def _psds(d, rng, lead, D):
     return phi_xx, phi_nn, tk, cond, scale, a
 
 
-@subcheck(SUBCHECKS, 'gev', quick=700, thorough=12000)
+@subcheck(SUBCHECKS, 'gev', quick=1400, thorough=12000)
 def gev(d, ctx):
     bf, bw = _mods()
     lead = tuple(d.int(1, 4) for _ in range(d.int(0, 2)))
@@ -100,7 +100,7 @@ def gev(d, ctx):
     ctx.nontrivial((D >= 3 or len(lead) >= 1) and cond >= 10)
 
 
-@subcheck(SUBCHECKS, 'pca', quick=500, thorough=9000)
+@subcheck(SUBCHECKS, 'pca', quick=1000, thorough=9000)
 def pca(d, ctx):
     bf, bw = _mods()
     lead = tuple(d.int(1, 4) for _ in range(d.int(0, 2)))
@@ -130,7 +130,7 @@ def pca(d, ctx):
     ctx.nontrivial(D >= 3 or len(lead) >= 1)
 
 
-@subcheck(SUBCHECKS, 'rank_one_estimates', quick=600, thorough=10000)
+@subcheck(SUBCHECKS, 'rank_one_estimates', quick=1200, thorough=10000)
 def rank_one_estimates(d, ctx):
     bf, bw = _mods()
     lead = tuple(d.int(1, 4) for _ in range(d.int(0, 2)))
@@ -167,7 +167,7 @@ def rank_one_estimates(d, ctx):
     ctx.nontrivial(D >= 3 or len(lead) >= 1)
 
 
-@subcheck(SUBCHECKS, 'ban', quick=600, thorough=10000)
+@subcheck(SUBCHECKS, 'ban', quick=1200, thorough=10000)
 def ban(d, ctx):
     bf, bw = _mods()
     lead = tuple(d.int(1, 4) for _ in range(d.int(0, 2)))
